@@ -515,6 +515,18 @@ Plan gen_sweep(u64 seed, u64 idx, const RunCtx & ctx)
   p.ops.push_back(op_cfg(0, c));
   Op in; in.k = "init"; in.a = {0, (i64)r.below(1000), -1, -1};
   p.ops.push_back(in);
+  if (ctx.tier == "thorough" && idx < 8 * total) {
+    // systematic part of the thorough tier: for every configuration, blocks of 20 draw indices, each
+    // steered once to the low and once to the high tail (single-site steering, everything else uniform)
+    i64 block = (i64)(idx / total);
+    p.hdr["sweep"] = "systematic-tail-steering block " + std::to_string(block);
+    for (i64 i = block * 20; i < block * 20 + 20; i++) for (i64 tail = 0; tail < 2; tail++) {
+      Op s = op_shoot(0, (i64)r.below(1ULL << 40), 0);
+      s.a[5] = i; s.a[6] = tail;
+      p.ops.push_back(s);
+    }
+    return p;
+  }
   int nshots = (int)r.range(10, ctx.tier == "thorough" ? 80 : 40);
   int mode = (int)r.below(4); // 0: uniform only, 1: sparse steering, 2: one swept index, 3: mixed
   for (int k = 0; k < nshots; k++) {
